@@ -1,6 +1,142 @@
-//! C37: not implemented yet.
+//! C37: revocation evidence is bound to the signing certificate.
+//!
+//! Stapled route: the scripted signer of C36 (`c36::ScriptedSigner`) returns the prepared OCSP response from
+//! `Signer::ocsp_val`, optionally together with a time-stamp token (which fixes the signing time the response is
+//! judged at).  Asserted route: manifest A is signed first; manifest B takes A as its parent ingredient with
+//! `builder.certificate_status_fetch = "all"` and a Context whose HTTP resolver answers the OCSP request of A's
+//! signing certificate (AIA URL) with the prepared response, so that B carries a c2pa.certificate-status assertion.
+//! Reading never fetches: `verify.ocsp_fetch = false` and a recording resolver; any request is reported.
+//!
+//! case: C36 fields (cred, anchors, claim_v, token, ocsp, override) +
+//!       read_serve: hex | null (fetch route at read time), url,
+//!       assert: null | { serve: hex, cred2: {chain,key,alg} | null, token2, ocsp2: hex | null, build_override: bool }
+//! out:  C36 report + { requests:[..], build_requests:[..] }
+use std::io::Cursor;
+
+use c2pa::Builder;
 use serde_json::{json, Value};
 
-pub fn run(_case: &Value) -> Value {
-    json!({"r": "unimplemented"})
+use crate::{c28::RecordingResolver, c36, e2e, util::*};
+
+/// Answers every GET below `prefix` with `body` (the OCSP responder of the build step); records all requests.
+#[derive(Clone, Default)]
+struct Responder {
+    inner: RecordingResolver,
+}
+
+fn requests(r: &RecordingResolver) -> Vec<String> {
+    r.log.lock().map(|g| g.iter().map(|(m, u)| format!("{m} {}", u.chars().take(60).collect::<String>())).collect()).unwrap_or_default()
+}
+
+/// Reading context: the resolver records every request; it answers 404 unless the case asks for the fetch route
+/// (`read_serve`: hex response served below `url`; the case then also switches `verify.ocsp_fetch` on via `read_settings`).
+fn read_ctx(case: &Value, rec: &RecordingResolver) -> c2pa::Context {
+    let mut inner = rec.clone();
+    if let Some(h) = case["read_serve"].as_str() {
+        inner.serve_url = Some(case["url"].as_str().unwrap_or("http://ocsp.verif.invalid/").to_string());
+        inner.body = std::sync::Arc::new(hex::decode(h).expect("read_serve hex"));
+    }
+    e2e::context(Some(&c36::settings_doc(case, false))).with_resolver(Responder { inner })
+}
+
+mod serve {
+    use std::io::{Cursor, Read};
+
+    use c2pa::http::{
+        http::{Request, Response},
+        HttpResolverError, SyncHttpResolver,
+    };
+
+    use super::Responder;
+
+    impl SyncHttpResolver for Responder {
+        fn http_resolve(&self, request: Request<Vec<u8>>) -> Result<Response<Box<dyn Read>>, HttpResolverError> {
+            let url = request.uri().to_string();
+            self.inner.log.lock().unwrap().push((request.method().to_string(), url.clone()));
+            let hit = self.inner.serve_url.as_ref().map(|p| url.starts_with(p.as_str())).unwrap_or(false);
+            let (status, body): (u16, Vec<u8>) = if hit { (200, self.inner.body.as_ref().clone()) } else { (404, vec![]) };
+            let len = body.len();
+            let b: Box<dyn Read> = Box::new(Cursor::new(body));
+            Response::builder().status(status).header("content-length", len.to_string()).body(b).map_err(HttpResolverError::Http)
+        }
+    }
+}
+
+fn asserted(case: &Value) -> Value {
+    let a = &case["assert"];
+    // manifest A
+    let (fmt, signed_a, seen_a) = match c36::sign_asset(case, "c37-A") {
+        Ok(x) => x,
+        Err(e) => return e,
+    };
+    // manifest B: parent ingredient A; the builder fetches A's certificate status through the resolver
+    let mut case_b = case.clone();
+    if a["cred2"].is_object() {
+        case_b["cred"] = a["cred2"].clone();
+    }
+    case_b["token"] = a["token2"].clone();
+    case_b["ocsp"] = a["ocsp2"].clone();
+    let mut sdoc: Value = serde_json::from_str(&c36::settings_doc(&case_b, true)).expect("settings");
+    sdoc["builder"] = json!({"certificate_status_fetch": a["fetch_scope"].as_str().unwrap_or("all"),
+                             "certificate_status_should_override": a["build_override"].as_bool().unwrap_or(true)});
+    let responder = Responder {
+        inner: RecordingResolver {
+            log: Default::default(),
+            serve_url: Some(a["url"].as_str().unwrap_or("http://ocsp.verif.invalid/").to_string()),
+            body: std::sync::Arc::new(a["serve"].as_str().map(|h| hex::decode(h).expect("serve hex")).unwrap_or_default()),
+        },
+    };
+    let ctx_b = e2e::context(Some(&sdoc.to_string())).with_resolver(responder.clone());
+    let signer_b = match c36::signer_of(&case_b) {
+        Ok(s) => s,
+        Err(e) => return e,
+    };
+    let def_b = json!({"title": "c37-B", "claim_generator_info": [{"name": "verif-harness", "version": "0.1"}], "assertions": []});
+    let built = (|| -> c2pa::Result<Vec<u8>> {
+        let mut b = Builder::from_context(ctx_b).with_definition(def_b.to_string())?;
+        let mut s = Cursor::new(signed_a.clone());
+        b.add_ingredient_from_stream(json!({"title": "A", "relationship": "parentOf"}).to_string(), &fmt, &mut s)?;
+        let mut input = Cursor::new(signed_a.clone());
+        let mut out = Cursor::new(Vec::new());
+        b.sign(&signer_b, &fmt, &mut input, &mut out)?;
+        Ok(out.into_inner())
+    })();
+    let build_requests = requests(&responder.inner);
+    let signed_b = match built {
+        Ok(b) => b,
+        Err(e) => {
+            return json!({"r": "err", "stage": "sign-b", "kind": err_class(&e), "detail": e.to_string().chars().take(200).collect::<String>(),
+                          "build_requests": build_requests})
+        }
+    };
+    if let Some(p) = case["dump"].as_str() {
+        let _ = std::fs::write(p, &signed_b);
+    }
+    let rec = RecordingResolver::default();
+    let mut rep = c36::read_report(case, read_ctx(case, &rec), &fmt, &signed_b);
+    rep["requests"] = json!(requests(&rec));
+    rep["build_requests"] = json!(build_requests);
+    rep["seen"] = json!(seen_a);
+    // did B get a certificate-status assertion?
+    rep["has_status_assertion"] = json!(String::from_utf8_lossy(&signed_b).contains("c2pa.certificate-status"));
+    // A alone, for reference (what the asserted evidence is supposed to change)
+    let rec_a = RecordingResolver::default();
+    let rep_a = c36::read_report(case, read_ctx(case, &rec_a), &fmt, &signed_a);
+    rep["a_alone"] = json!({"r": rep_a["r"], "state": rep_a["state"], "failure": rep_a["failure"], "informational": rep_a["informational"], "kind": rep_a["kind"]});
+    rep
+}
+
+pub fn run(case: &Value) -> Value {
+    if case["assert"].is_object() {
+        return asserted(case);
+    }
+    let (fmt, signed, seen) = match c36::sign_asset(case, "c37") {
+        Ok(x) => x,
+        Err(e) => return e,
+    };
+    let rec = RecordingResolver::default();
+    let mut rep = c36::read_report(case, read_ctx(case, &rec), &fmt, &signed);
+    rep["seen"] = json!(seen);
+    rep["requests"] = json!(requests(&rec));
+    rep
 }
